@@ -432,6 +432,8 @@ type FuncContract struct {
 	Uses      []string
 	ParamContracts map[string]string
 	CallAsserts map[string][]*Clause
+	// AccessAsserts: "write S.f" / "read S.f" -> obligations at the stores to / loads from that field
+	AccessAsserts map[string][]*Clause
 	GhostSets []*Clause
 	PkgPath   string
 	HavocAll  bool
@@ -647,6 +649,22 @@ func (cs *ContractSet) ParseContractFile(path, pkgPath string) error {
 		case "at":
 			// at <callee> requires [label] expr : extra obligation at every call of <callee> in this function
 			parts := strings.Fields(rest)
+			if cur != nil && len(parts) >= 4 && (parts[0] == "write" || parts[0] == "read") && parts[2] == "requires" {
+				// at write|read Struct.field requires [label] expr : obligation at every store to / load from that
+				// field made by this function on an object it did not allocate itself (expr over the function's parameters)
+				src := strings.TrimSpace(rest[strings.Index(rest, " requires ")+len(" requires "):])
+				label, src := splitLabel(src)
+				e, err := ParseCExpr(src)
+				if err != nil {
+					return fail(err)
+				}
+				if cur.AccessAsserts == nil {
+					cur.AccessAsserts = map[string][]*Clause{}
+				}
+				key := parts[0] + " " + parts[1]
+				cur.AccessAsserts[key] = append(cur.AccessAsserts[key], &Clause{Kind: "requires", Label: label, Src: src, Expr: e, File: path, Line: rl.line})
+				break
+			}
 			if cur == nil || len(parts) < 3 || (parts[1] != "requires" && parts[1] != "assumes") {
 				return fail(fmt.Errorf("at <callee> requires|assumes <expr>"))
 			}
